@@ -150,6 +150,26 @@ func genMatrix(r *lib.Rng, n int) []uint64 {
 var sources = []string{"Triangle", "Lancero", "Abaco", "Roach", "SimPulse", "src with: colon"}
 var descs = []string{"", "verif model", "basis v2: 3 components"}
 
+// text that a careless formatter / encoder mangles: format verbs, quotes, backslashes, markup, non-ASCII, odd spacing.
+// (No newlines: the LJH 2.2 header is one key/value pair per line. No '/': channel names become file names.)
+var trickyFrags = []string{"AuBi 50%d absorber", "TES 100%", "%s", "%!", "%%", "%!e(MISSING)", "100%v %x %[1]d %-5.2f %e",
+	`q"uote`, `back\slash`, `\n\t`, "tab\there", "\u00b5-cal \u03a9 \u65e5\u672c", "a: b", " lead", "trail ", "<&>", "it's", "{}[],", "%d%d%d%d"}
+
+func tricky(r *lib.Rng, base string) string {
+	if !r.Chance(1, 3) {
+		return base
+	}
+	f := trickyFrags[r.Intn(len(trickyFrags))]
+	switch r.Intn(3) {
+	case 0:
+		return f + base
+	case 1:
+		return base + " " + f
+	default:
+		return base + f + base
+	}
+}
+
 var niceTb = []float64{5e-8, 1e-6, 6.4e-6, 8e-9, 1.0, 0.25, 3.2e-7, 9.999999e-7, 1.2345675e-5, 9.9999995e-4}
 
 // timebases for the writer level (any positive normal double in a practical range)
@@ -223,9 +243,12 @@ func genChans(r *lib.Rng, nchan, nsamp int, projChance int, sfByRow bool) []Chan
 			col, row = k/rows, k%rows
 		}
 		ch := Chan{Name: fmt.Sprintf("chan%d", perm[i]), Number: perm[i], Rows: rows, Cols: cols, Row: row, Col: col,
-			PX: r.Range(-50, 50), PY: r.Range(-50, 50), PName: fmt.Sprintf("px%d", r.Range(0, 999))}
+			PX: r.Range(-50, 50), PY: r.Range(-50, 50), PName: tricky(r, fmt.Sprintf("px%d", r.Range(0, 999)))}
 		if r.Chance(1, 10) {
 			ch.Name = fmt.Sprintf("err%d", perm[i])
+		}
+		if r.Chance(1, 4) {
+			ch.Name = tricky(r, "") + ch.Name // the number at the end keeps names (= file names) distinct
 		}
 		if sfByRow {
 			ch.SfOff = row
@@ -239,7 +262,7 @@ func genChans(r *lib.Rng, nchan, nsamp int, projChance int, sfByRow bool) []Chan
 			}
 			ch.Proj = genMatrix(r, ch.NBases*nsamp)
 			ch.Basis = genMatrix(r, ch.NBases*nsamp)
-			ch.Desc = descs[r.Intn(len(descs))]
+			ch.Desc = tricky(r, descs[r.Intn(len(descs))])
 		}
 		chans[i] = ch
 	}
@@ -300,7 +323,8 @@ func genSfDiv(r *lib.Rng, rows int) int {
 	case 1:
 		return 64
 	default:
-		return r.Pick([]int{1, 2, 4, 8, 32, 64, 100, 1000000})
+		// 0 = sources that never set subframeDivisions (Triangle, Roach): the counter is then just the offset
+		return r.Pick([]int{0, 0, 0, 1, 1, 2, 4, 8, 32, 64, 100, 1000000})
 	}
 }
 
@@ -310,7 +334,7 @@ func genWriterCase(r *lib.Rng, id int64, tier string) Case {
 	kind := []string{"w22", "w3", "woff"}[r.Intn(3)]
 	npre, nsamp := genLengths(r, tier)
 	ch := genChans(r, 1, nsamp, 0, r.Bool())[0]
-	c := Case{ID: id, Kind: kind, Source: sources[r.Intn(len(sources))], NPre: npre, NSamp: nsamp,
+	c := Case{ID: id, Kind: kind, Source: tricky(r, sources[r.Intn(len(sources))]), NPre: npre, NSamp: nsamp,
 		Nchan: r.Range(1, 300), Index: r.Range(0, 299), Spp: r.Pick([]int{1, 1, 1, 2, 4}), TbBits: genTimebase(r)}
 	c.SfDiv = genSfDiv(r, ch.Rows)
 	cx := recCtx{nsamp: nsamp, npre: npre, div: c.SfDiv, offset: ch.SfOff, wrongLen: r.Chance(1, 3), extremePre: kind != "w22" && r.Chance(1, 4)}
@@ -325,7 +349,7 @@ func genWriterCase(r *lib.Rng, id int64, tier string) Case {
 		}
 		ch.Proj = genMatrix(r, ch.PRows*ch.PCols)
 		ch.Basis = genMatrix(r, ch.BRows*ch.BCols)
-		ch.Desc = descs[r.Intn(len(descs))]
+		ch.Desc = tricky(r, descs[r.Intn(len(descs))])
 		cx.nb = ch.PRows
 		cx.wrongNb = r.Chance(1, 3)
 		cx.wrongLen = true
@@ -380,7 +404,7 @@ func genBenchCase(r *lib.Rng, id int64, tier string) Case {
 			}
 		}
 	}
-	c := Case{ID: id, Kind: "bench", Source: sources[r.Intn(len(sources))], NPre: npre, NSamp: nsamp, Chans: chans,
+	c := Case{ID: id, Kind: "bench", Source: tricky(r, sources[r.Intn(len(sources))]), NPre: npre, NSamp: nsamp, Chans: chans,
 		UseMap: r.Chance(1, 2)}
 	c.SfDiv = genSfDiv(r, chans[0].Rows)
 	if sfByRow {
@@ -556,6 +580,22 @@ func corpus() []Case {
 			{Op: "pub", Ch: 1, Recs: []Rec{simpleRec(2, 2000, 1, ramp(4, 2), 2), simpleRec(3, 3000, 1, ramp(4, 3), 3)}},
 			{Op: "pub", Ch: 2, Recs: []Rec{simpleRec(4, 4000, 1, ramp(4, 4))}},
 			{Op: "stop"}}},
+		// sub-frame divisions 0 (Triangle, Roach) with a non-zero offset, divisions 1; a pixel name, channel name, source name
+		// and model description full of format verbs, quotes, backslashes and non-ASCII text
+		{Kind: "bench", Source: "Tri%dangle 100% \"q\" \\ \u00b5", SfDiv: 0, NPre: 1, NSamp: 4, RateNum: 156250, RateDen: 1, UseMap: true, Chans: []Chan{
+			{Name: "50%d chan1", Number: 1, Rows: 1, Cols: 2, Row: 0, Col: 0, SfOff: 3, PX: 1, PY: 2, PName: "AuBi 50%d absorber",
+				NBases: 1, Proj: fbits(1, 0, 0, 0), Basis: fbits(1, 0, 0, 0), Desc: "basis %s \"v2\" <&> \u65e5\u672c \\"},
+			{Name: "chan2", Number: 2, Rows: 1, Cols: 2, Row: 0, Col: 1, SfOff: 0, PX: 3, PY: 4, PName: "TES 100%"}}, Ops: []Op{
+			{Op: "start", T22: true, T3: true, TOFF: true},
+			{Op: "pub", Ch: 0, Recs: []Rec{simpleRec(7, 1000, 1, ramp(4, 1), 1), simpleRec(8, 2000, 1, ramp(4, 2), 2)}},
+			{Op: "pub", Ch: 1, Recs: []Rec{simpleRec(9, 3000, 1, ramp(4, 3))}},
+			{Op: "stop"}}},
+		{Kind: "w22", Source: "%!e(MISSING)", SfDiv: 0, NPre: 1, NSamp: 3, Nchan: 2, Index: 1, Spp: 1, TbBits: math.Float64bits(6.4e-6),
+			Chans: []Chan{{Name: "chan%s", Number: 2, Rows: 1, Cols: 2, Row: 0, Col: 1, SfOff: 5, PX: 3, PY: 4, PName: "AuBi 50%d absorber"}},
+			Ops: []Op{{Op: "rec", Recs: []Rec{simpleRec(100, 17, 1, ramp(3, 5)), simpleRec(-4, 18, 1, ramp(3, 6))}}}},
+		{Kind: "w22", Source: "Roach", SfDiv: 1, NPre: 1, NSamp: 3, Nchan: 2, Index: 1, Spp: 1, TbBits: math.Float64bits(6.4e-6),
+			Chans: []Chan{{Name: "chan2", Number: 2, Rows: 1, Cols: 2, Row: 0, Col: 1, SfOff: 9, PName: "TES 100%"}},
+			Ops: []Op{{Op: "rec", Recs: []Rec{simpleRec(100, 17, 1, ramp(3, 5))}}}},
 		// the writers directly
 		{Kind: "w22", Source: "Lancero", SfDiv: 32, NPre: 2, NSamp: 6, Nchan: 64, Index: 12, Spp: 1, TbBits: math.Float64bits(5e-8),
 			Chans: []Chan{{Name: "chan12", Number: 12, Rows: 32, Cols: 2, Row: 12, Col: 1, SfOff: 12, PX: 3, PY: 4, PName: "pixel"}},
